@@ -290,6 +290,10 @@ class RangeLiteral(Expression):
         if start > stop:
             return range(0)
 
+        if stop - start >= sys.maxsize:
+            # len() of such a range raises OverflowError wherever it is used.
+            raise LiquidTypeError("range is too large", token=self.token)
+
         return range(start, stop + 1)
 
     def evaluate(self, context: RenderContext) -> range:
